@@ -5,8 +5,9 @@ Keep the behaviour-preserving patches of an independent sub-agent (worktree/seed
 self-test replays on every run: the property's own check plus any check that ever raised a false alarm on one of them."""
 import json, os, shutil, sys
 prop, wt = sys.argv[1], sys.argv[2]
-extra = sys.argv[3:]
-dst = os.path.join('/verif/benign', prop)
+extra = [a for a in sys.argv[3:] if not a.startswith('--id=')]
+sid = ([a[5:] for a in sys.argv[3:] if a.startswith('--id=')] or [prop])[0]
+dst = os.path.join('/verif/benign', sid)
 os.makedirs(dst, exist_ok=True)
 n = 0
 for f in sorted(os.listdir(os.path.join(wt, 'seed'))):
